@@ -259,8 +259,9 @@ class Module:
             hdr.append(f"From BBRun Require {m.coq_name}.")
         hdr += ["Import ListNotations.", "Open Scope R_scope.", ""]
         body = []
-        if getattr(self, "uses_numpy", False):
-            pass
+        if getattr(self, "uses_linspace", False):
+            # numpy.linspace(a, b, n): a + k * ((b - a) / (n - 1)) for k = 0 .. n-1 (over the reals the overwritten last entry is b too)
+            body += ["Definition linspace (a b : R) (n : nat) : list R := map (fun k => a + INR k * ((b - a) / (INR n - 1))) (seq 0 n).", ""]
         if self.oracles:
             body.append("Section Oracles.")
             for nm, ty in self.oracles:
@@ -922,6 +923,11 @@ class Tr:
     def binop(self, op, l, r, node, rnode):
         if isinstance(op, ast.Add) and isinstance(l, St) and isinstance(r, St):
             return St(l.s + r.s)      # message text only
+        # a node count / length (Python int) entering float arithmetic: exact conversion
+        if isinstance(l, Na) and isinstance(op, (ast.Add, ast.Sub, ast.Mult, ast.Div, ast.Pow)):
+            l = Sc(f"(INR {l.t})")
+        if isinstance(r, Na) and isinstance(op, (ast.Add, ast.Sub, ast.Mult, ast.Div)):
+            r = Sc(f"(INR {r.t})")
         if isinstance(op, ast.Pow):
             n = as_int_const(rnode) if rnode is not None else None
             if n is not None:
@@ -1564,6 +1570,13 @@ def _full_like(tr, node, args, kwargs):
     fail(node, "np.full_like kinds")
 
 
+def _linspace(tr, node, args, kwargs):
+    if len(args) != 3 or kwargs or not (isinstance(args[0], Sc) and isinstance(args[1], Sc) and isinstance(args[2], Na)):
+        fail(node, "np.linspace form (start, stop, symbolic count)")
+    tr.mod.uses_linspace = True
+    return DL(f"(linspace {args[0].t} {args[1].t} {args[2].t})")
+
+
 def _full(tr, node, args, kwargs):
     if len(args) == 2 and not kwargs and isinstance(args[0], Na) and isinstance(args[1], Sc):
         return DL(f"(repeat {args[1].t} {args[0].t})")
@@ -1696,7 +1709,7 @@ BUILTINS = {
     "float": _float, "len": _len, "np.clip": _clip, "np.minimum": _minimum, "np.arange": _arange,
     "np.ones_like": lambda tr, node, args, kwargs: (DL(f"(map (fun _ => 1) {args[0].t})") if len(args) == 1 and not kwargs and isinstance(args[0], DL)
                                                      else Sc("1") if len(args) == 1 and not kwargs and isinstance(args[0], Sc) else fail(node, "np.ones_like form")),
-    "np.full": _full, "np.full_like": _full_like, "np.empty_like": _empty_like, "np.result_type": _result_type,
+    "np.full": _full, "np.linspace": _linspace, "np.full_like": _full_like, "np.empty_like": _empty_like, "np.result_type": _result_type,
     "cumulative_trapezoid": _cumtrapz, "sp.integrate.cumulative_trapezoid": _cumtrapz,
     "integrate.cumulative_trapezoid": _cumtrapz,
     "brentq": _brentq, "quad": _quad,
